@@ -155,7 +155,7 @@ Definition d_inc (delta_raw : bytes) (delta : num) (sl : slot) : res act :=
       then nb <- inc_bytes (leaf_code raw) tn delta ;; Ok (Put (DVal nb))
       else Err EType
   | SlotValue _ => Err EType
-  | SlotMissing rest => create_at rest (DVal delta_raw)
+  | SlotMissing rest => create_at rest (value_doc delta_raw)
   | SlotAppend => Err EPath
   end.
 
